@@ -76,7 +76,7 @@ func (i *MsgInput) Context(env envs.Environment) map[string]types.XValue {
 		"__default__": types.NewXText(i.format()),
 		"type":        types.NewXText(i.type_),
 		"uuid":        types.NewXText(string(i.uuid)),
-		"created_on":  types.NewXDateTime(i.createdOn),
+		"created_on":  types.NewXDateTime(flows.StoredTime(i.createdOn)),
 		"channel":     flows.Context(env, i.channel),
 		"urn":         urn,
 		"text":        types.NewXText(i.text),
